@@ -182,13 +182,14 @@ with SqliteImpl.impl_store.impl_manager as impl:
     def _floor(x):
         return -sqa.func.ceil(-x)
 
+    # SQLite stores NaN as NULL, so a non-null value is never NaN
     @impl(ops.is_nan)
     def _is_nan(x):
-        return False
+        return x != x
 
     @impl(ops.is_not_nan)
     def _is_not_nan(x):
-        return True
+        return x == x
 
     @impl(ops.cbrt)
     def _cbrt(x):
